@@ -3,6 +3,8 @@
 // Index normalisation, slicing bounds and the native iterators (value.rs, object.rs).
 use vstd::prelude::*;
 use std::ops::Deref;
+#[allow(unused_imports)]
+use std::cmp;
 verus! {
 
 global size_of usize == 8;
